@@ -356,11 +356,16 @@ class Model:
             'xi': grid,
         }
 
+        # mu_r and epsilon_r are always given on a linear scale, whatever the
+        # mapping of property_{x;y;z}: their default must not depend on it.
+        g2g_lin = {**g2g_inp, 'log': interpolate_opts.get('log', True)}
+
         # Interpolate property_{x;y;z}; mu_r; and epsilon_r; add to dict.
         model_inp = {}
         for prop in self._def_properties:
             var = getattr(self, prop)
-            model_inp[prop] = maps.interpolate(values=var, **g2g_inp)
+            opts = g2g_inp if prop.startswith('property_') else g2g_lin
+            model_inp[prop] = maps.interpolate(values=var, **opts)
 
         # Assemble new model.
         return Model(grid, mapping=self.map.name, **model_inp)
@@ -492,10 +497,13 @@ class Model:
             values = getattr(self, prop)
 
             if not midpoint:
-                if not self.map.name.startswith('L'):
+                # Average on log-scale; mu_r/epsilon_r are always linear.
+                log = not (prop.startswith('property_') and
+                           self.map.name.startswith('L'))
+                if log:
                     values = np.log10(values)
                 val = np.einsum('ij,ijk->k', imat, values)
-                if not self.map.name.startswith('L'):
+                if log:
                     val = 10**val
             else:
                 val = values[six, siy, :]
